@@ -67,6 +67,9 @@ pub struct RunStats {
     pub blocked_handoffs: u64,
     #[serde(default)]
     pub clock_jumps: u64,
+    /// scenarios run under each descriptor limit (RLIMIT_NOFILE of the worker process)
+    #[serde(default)]
+    pub fd_limit_scenarios: BTreeMap<String, u64>,
     /// caller threads that ran restricted to 1-3 CPUs
     #[serde(default)]
     pub cpu_limited_threads: u64,
@@ -1014,7 +1017,21 @@ pub fn run(scen: &Scenario, schedule: Schedule, tracing: bool) -> RunOut {
                 eprintln!("DEBUG-STALL seed={} baton={} decisions={} abort={} {}", scen.seed, b as isize, st.decisions.len(), st.abort, desc.join(" | "));
             }
             if idle > Duration::from_secs(stall_secs()) {
-                if scen.yield_mask != 0 {
+                // A genuine deadlock, whatever the yield sites: the baton holder sleeps in the kernel
+                // (not in the harness: it holds the baton, and the scheduler's own mutex is free or
+                // this thread could not look), and every other simulated thread is finished or was
+                // itself classified as blocked while it held the baton. Nothing of the harness is
+                // waiting for anything, so nobody can ever run again.
+                let all_stuck = {
+                    let holder = sh.baton.load(Ordering::Acquire);
+                    let st = sh.st.lock().unwrap_or_else(|e| e.into_inner());
+                    holder != MAIN
+                        && holder < st.th.len()
+                        && thread_sleeps(st.th[holder].tid)
+                        && (0..st.th.len()).all(|t| t == holder || !sh.runnable(&st, t))
+                        && (0..st.th.len()).filter(|&t| st.th[t].life == Life::Live).count() >= 2
+                };
+                if scen.yield_mask != 0 && !all_stuck {
                     // with yield sites on, a stall is treated as the harness's doing: the batch
                     // re-runs the range with yield sites off before anything is concluded
                     eprintln!("STALL seed={} (no scheduling progress for {} s)", scen.seed, stall_secs());
@@ -1035,7 +1052,11 @@ pub fn run(scen: &Scenario, schedule: Schedule, tracing: bool) -> RunOut {
                             rep,
                             op: op.clone(),
                             op_text: op.describe(),
-                            got: Outcome::Err(format!("<operation did not return within {} s; no other simulated thread could run>", stall_secs())),
+                            got: Outcome::Err(if all_stuck {
+                                format!("<deadlock: operation did not return within {} s; every live simulated thread sleeps inside the library waiting for another>", stall_secs())
+                            } else {
+                                format!("<operation did not return within {} s; no other simulated thread could run>", stall_secs())
+                            }),
                             expected: scen.expected[op_ix as usize].clone(),
                             reference: "pristine-process".into(),
                             at_decision: at,
